@@ -249,6 +249,9 @@ class Evaluator:
             if hi == c:
                 hi -= 1
             want = AV(lo, hi) if lo <= hi else AV(None, None)
+            if want.empty and not is_leaf(x):
+                env["#infeasible"] = AV(None, None)      # the expression is exactly c: `!= c` cannot hold
+                return
             if x[0] == "bin" and x[1] == "Rem" and c is not None:
                 mc = self.eval(x[3], env).const()
                 if mc and mc > 1 and is_leaf(deref_strip(x[2])):
@@ -270,6 +273,12 @@ class Evaluator:
         if is_leaf(x):
             self.refine_leaf(env, x, want)
             return
+        if not want.empty:
+            # whatever x is: if its value set cannot meet the requirement the guarded path is infeasible
+            cur0 = self.eval(x, env)
+            if not cur0.empty and cur0.meet(AV(max(want.lo, -(1 << 199)), min(want.hi, 1 << 199), want.m, want.r)).empty:
+                env["#infeasible"] = AV(None, None)
+                return
         if x[0] == "cast" and is_intlike(x[3]) and is_intlike(x[4]):
             src = ty_range(x[3])
             dst = ty_range(x[4])
@@ -290,6 +299,22 @@ class Evaluator:
                 d = -c if x[1] == "Add" else c
                 self._refine_side(env, "Eq", x[2], AV(want.lo + d, want.hi + d))
             return
+
+    @staticmethod
+    def _is_pow2_of_tz(b, a):
+        """b is `1 << trailing_zeros(a)` (modulo casts / derefs)"""
+        def strip(x):
+            x = deref_strip(x)
+            while isinstance(x, tuple) and x and x[0] == "cast":
+                x = deref_strip(x[2] if len(x) > 3 else x[1])
+            return x
+        b, a = strip(b), strip(a)
+        if not (isinstance(b, tuple) and b and b[0] == "bin" and b[1] == "Shl"):
+            return False
+        one, sh = strip(b[2]), strip(b[3])
+        if not (one[0] == "const" and one[2] == 1):
+            return False
+        return isinstance(sh, tuple) and sh and sh[0] == "call" and sh[1].endswith("trailing_zeros") and len(sh[2]) == 1 and show(strip(sh[2][0])) == show(a)
 
     # ---------- evaluation ----------
     def eval(self, e, env, sites=None, block=None):
@@ -324,6 +349,8 @@ class Evaluator:
                 return a
             return AV(dst[0], dst[1])
         if k == "bin":
+            if e[1] == "Rem" and self._is_pow2_of_tz(e[3], e[2]):
+                return AV(0, 0)          # x % (1 << x.trailing_zeros()) == 0 for every x != 0 (and the shift is checked separately)
             return self.eval_bin(e, env)
         if k == "un":
             a = self.eval(e[2], env)
